@@ -626,7 +626,7 @@ pub fn child_main() -> i32 {
 fn spawn_child(job: &ChildJob) -> Result<std::process::Output, String> {
     use std::io::Write;
     use std::process::{Command, Stdio};
-    let exe = std::env::current_exe().map_err(|e| format!("current_exe: {e}"))?;
+    let exe = crate::core::runner::self_exe()?;
     let mut child = Command::new(exe)
         .arg("codec-child")
         .env_remove("VERIF_TRACING")
